@@ -100,6 +100,8 @@ def E.subst : E ℝ → (ℕ → E ℝ) → E ℝ
   | .log a, σ => .log (a.subst σ)
   | .sqrt a, σ => .sqrt (a.subst σ)
   | .atan2 y x, σ => .atan2 (y.subst σ) (x.subst σ)
+  | .sgn a, σ => .sgn (a.subst σ)
+  | .isneg a, σ => .isneg (a.subst σ)
 
 theorem E.val_subst (f : E ℝ) (σ : ℕ → E ℝ) (env : ℕ → ℝ) :
     (f.subst σ).val env = f.val (fun i => (σ i).val env) := by
